@@ -20,8 +20,7 @@ def run_witness(tag, target_rel, witness_src, test_filter="verif_witness", repla
     if marker not in cur:
         with open(p, "w") as f:
             f.write(cur + "\n#[cfg(test)]\n#[allow(dead_code, unused_imports, unused_variables, unused_mut)]\n" + marker + " {\n" + body + "\n}\n")
-    env = C.offline_env({"CARGO_TARGET_DIR": os.path.join(C.CACHE, "test-target"), "VERIF_SEED": str(C.seed()),
-                         "VERIF_TIER": os.environ.get("VERIF_TIER", "quick"), "RUST_BACKTRACE": "0"})
+    env = C.test_env({"VERIF_SEED": str(C.seed()), "VERIF_TIER": os.environ.get("VERIF_TIER", "quick")})
     if replay_input is not None:
         env["VERIF_REPLAY_INPUT"] = json.dumps(replay_input)
     cmd = ["cargo", "test", "--offline", "--lib", marker.replace("mod ", "") + "::", "--", "--nocapture", "--test-threads", "1"]
